@@ -43,10 +43,10 @@ PROP = 'C09'
 ENGINES = c09run.ENGINES
 
 TIERS = {
-    'quick': dict(programs=120, bulk=False, shards=8, pool=common.NCPU,
-                  mc=[('Br', 6), ('Scope', 6), ('With', 5), ('Misc', 5)]),
+    'quick': dict(programs=84, bulk=False, shards=6, pool=common.NCPU,
+                  mc=[('Br', 5), ('Scope', 5), ('With', 4), ('Misc', 4)]),
     'thorough': dict(programs=1500, bulk=True, shards=common.NCPU,
-                     pool=common.NCPU,
+                     pool=common.NCPU, mc_workers=2,
                      mc=[('Br', 7), ('Scope', 7), ('With', 6), ('Misc', 6)]),
 }
 
@@ -129,6 +129,89 @@ FIXED = [
 ]
 
 
+# Shape A (required in every run): two WITH "parents" - a @Ground'ed predicate
+# and the main predicate, or two @Ground'ed predicates - read the same
+# non-injectable predicate T, and T reads further WITH tables (an aggregating
+# predicate A and multi-row facts U); nothing below T is grounded.  Each
+# emitted statement (CREATE TABLE .. AS WITH .., main query) must define, in
+# its own WITH list and before use, every compiler-allocated table it reads.
+# Both orders of the parents are compiled (Mab / Mba), in every dialect.
+def ShapeA():
+  base = ('U(1, "a");\nU(2, "b");\nU(3, "a");\n'
+          'A(s, n? += x) distinct :- U(x, s);\n')
+  t_kinds = {
+      'agg': 'T(s, m? Max= n) distinct :- A(s, n:), U(x, s);\n',
+      'multi': 'T(s, m: n) :- A(s, n:);\nT(s, m: x) :- U(x, s), x > 1;\n',
+  }
+  parents = {
+      'ground_main': ('@Ground(G);\nG(s, m) :- T(s, m:), m > 0;\n'
+                      'Mab(s, m2) :- G(s, m), T(s, m: m2);\n'
+                      'Mba(s, m2) :- T(s, m: m2), G(s, m);\n',
+                      ['Mab', 'Mba', 'G']),
+      'two_grounds': ('@Ground(G1);\n@Ground(G2);\n'
+                      'G1(s, m) :- T(s, m:), m > 0;\n'
+                      'G2(s, m) :- T(s, m:), m < 9;\n'
+                      'Mab(s, m, m2) :- G1(s, m), G2(s, m2);\n'
+                      'Mba(s, m, m2) :- G2(s, m2), G1(s, m);\n',
+                      ['Mab', 'Mba']),
+  }
+  out = []
+  for tk, t in t_kinds.items():
+    for pk, (par, preds) in parents.items():
+      out.append(('shapeA_%s_%s' % (tk, pk), preds, base + t + par, {}))
+  return out
+
+
+# Shape B (required in every run): string constants with an apostrophe, a
+# backslash, both, a double quote, a newline, a tab - as facts of a multi-row
+# predicate (nested SELECTs), in a comparison, a concatenation, a list and a
+# record - for every dialect.  SqlScopeTrace must find, for every such
+# constant, a literal token that is one literal of the dialect (StrLit) and
+# decodes to exactly the constant.  The newline constant is only placed in a
+# top-level SELECT: inside nested SELECTs five dialects indent the line after
+# a raw newline (known finding F-C10-newline-indent-sql, owned by C10).
+SHAPE_B_STRINGS = collections.OrderedDict([
+    ('apostrophe', "it's"), ('backslash', 'a\\b'), ('both', "a\\'b"),
+    ('trailing_backslash', 'c\\'), ('double_quote', 'say "hi"'),
+    ('two_apostrophes', "''"), ('tab', 'p\tq'), ('newline', 'x\ny'),
+])
+
+
+def LogicaLiteral(s):
+  """"..." is verbatim in Logica (no escapes); anything it cannot hold is
+  written as a '...' literal with Python escapes (parse.ParseString)."""
+  if not any(c in s for c in '"\\\n\t'):
+    return '"%s"' % s
+  return "'%s'" % ''.join(
+      {"'": "\\'", '\\': '\\\\', '\n': '\\n', '\t': '\\t'}.get(c, c)
+      for c in s)
+
+
+def ShapeB():
+  st = SHAPE_B_STRINGS
+  nested = [k for k in st if k != 'newline']
+  facts = ''.join('S(%d, %s);\n' % (i, LogicaLiteral(st[k]))
+                  for i, k in enumerate(nested))
+  lit = LogicaLiteral
+  body = (facts +
+          'N(%s, 7);\n' % lit(st['newline']) +
+          'Cmp(k) :- S(k, s), s != %s, s != %s;\n' % (lit(st['both']),
+                                                      lit(st['backslash'])) +
+          'Cat(k, s ++ %s ++ %s) :- S(k, s);\n' % (lit(st['apostrophe']),
+                                                   lit(st['trailing_backslash'])) +
+          'Lst(k) :- S(k, s), s in [%s, %s, %s];\n' % (
+              lit(st['both']), lit(st['double_quote']), lit(st['tab'])) +
+          'Rec(k, r: {a: %s, b: s}) :- S(k, s);\n' % lit(st['both']) +
+          'Nl(k, %s ++ s) :- S(k, s), k == 0;\n' % lit(st['newline']))
+  all_nested = [st[k] for k in nested]
+  want = {
+      'S': all_nested, 'N': [st['newline']],
+      'Cmp': all_nested, 'Cat': all_nested, 'Lst': all_nested,
+      'Rec': all_nested, 'Nl': all_nested + [st['newline']],
+  }
+  return [('shapeB_strings', list(want), body, want)]
+
+
 # Converse demonstration inside every run: hand-made scripts with one defect
 # each; SqlScopeTrace must reject them with the named clause (and accept the
 # repaired twin), otherwise the run is a machinery failure.
@@ -161,6 +244,35 @@ SELFTEST = [
     ('sqlite', ['SELECT JSON_GROUP_ARRAY(None) AS x'], 'placeholder'),
     ('sqlite', ['SELECT x %s y'], 'placeholder'),
     ('sqlite', ['/* nil */ SELECT 1'], 'placeholder'),
+    # shape A: every statement is scoped on its own
+    ('sqlite', ['CREATE TABLE logica_test.G AS WITH t_1_U AS (SELECT 1 AS x), '
+                't_0_T AS (SELECT U.x FROM t_1_U AS U) SELECT T.x FROM t_0_T '
+                'AS T;',
+                'WITH t_0_T AS (SELECT U.x FROM t_1_U AS U) SELECT T.x FROM '
+                't_0_T AS T, logica_test.G AS G'], 'with-order'),
+    ('sqlite', ['CREATE TABLE logica_test.G AS WITH t_1_U AS (SELECT 1 AS x), '
+                't_0_T AS (SELECT U.x FROM t_1_U AS U) SELECT T.x FROM t_0_T '
+                'AS T;',
+                'WITH t_1_U AS (SELECT 1 AS x), t_0_T AS (SELECT U.x FROM '
+                't_1_U AS U) SELECT T.x FROM t_0_T AS T, logica_test.G AS G'],
+     ''),
+    # shape B: literals are lexed with the dialect's rules and must decode to
+    # the program's string
+    ('duckdb', ["SELECT E'it\\\\'s' AS col0 UNION ALL SELECT E'q' AS col0"],
+     'string', ["it's"]),
+    ('duckdb', ["SELECT E'it''s' AS col0 UNION ALL SELECT E'q' AS col0"], '',
+     ["it's", 'q']),
+    ('duckdb', ["SELECT E'it\\\\''s' AS col0"], 'string-content', ["it's"]),
+    ('clickhouse', ["SELECT 'a\\b' AS col0"], 'string-content', ['a\\b']),
+    ('clickhouse', ["SELECT 'a\\q' AS col0"], 'string', ['a\\q']),
+    ('clickhouse', ["SELECT 'a\\\\b' AS col0, 'it\\'s' AS col1"], '',
+     ['a\\b', "it's"]),
+    ('sqlite', ["SELECT 'a\\\\b' AS col0"], 'string-content', ['a\\b']),
+    ('sqlite', ["SELECT 'a\\b' AS col0, 'c\\' AS col1"], '',
+     ['a\\b', 'c\\']),
+    ('bigquery', ['SELECT "say \\"hi\\"" AS col0, "x\\ny" AS col1'], '',
+     ['say "hi"', 'x\ny']),
+    ('psql', ["SELECT 'x\n  y' AS col0"], 'string-content', ['x\ny']),
 ]
 
 
@@ -168,9 +280,11 @@ def SelfTestLines():
   """[(id, json line without id, number of events)]"""
   from harness import sqllex
   lines = []
-  for k, (d, texts, _) in enumerate(SELFTEST):
+  for k, case in enumerate(SELFTEST):
+    d, texts = case[:2]
     rec = {}
-    c09run.Attach(rec, sqllex.Script(texts, d), d)
+    c09run.Attach(rec, sqllex.Script(texts, d), d, case[3] if len(case) > 3
+                  else ())
     lines.append(('selftest%02d' % k, rec['line'],
                   sum(rec['kinds'].values())))
   return lines
@@ -178,7 +292,8 @@ def SelfTestLines():
 
 def SelfTestFailures(verdicts):
   bad = []
-  for k, (d, texts, clause) in enumerate(SELFTEST):
+  for k, case in enumerate(SELFTEST):
+    texts, clause = case[1], case[2]
     v = verdicts.get('selftest%02d' % k)
     if v is None or v['clause'] != clause:
       bad.append('self-test %d (%s) expected clause %r, got %r' % (
@@ -189,10 +304,11 @@ def SelfTestFailures(verdicts):
 def GeneratedItems(n):
   items = []
   feats = collections.Counter()
-  for name, preds, body in FIXED:
+  for name, preds, body, want in ([f + ({},) for f in FIXED] + ShapeA() +
+                                  ShapeB()):
     for e in ENGINES:
       items.append({'id': 'f/%s/%s' % (name, e), 'engine': e, 'preds': preds,
-                    'text': '@Engine("%s");\n%s' % (e, body),
+                    'text': '@Engine("%s");\n%s' % (e, body), 'want': want,
                     'meta': {'kind': 'fixed', 'name': name}})
   for k in range(n):
     pname, prof = PROFILES[k % len(PROFILES)]
@@ -277,7 +393,8 @@ def ModelRuns(cfg, pool):
     with open(path, 'w') as f:
       f.write(text)
     futs.append((name, maxlen, pool.submit(
-        tlc.Run, 'MCSqlScope', cfg=path, workers=2, tag='c09mc' + name,
+        tlc.Run, 'MCSqlScope', cfg=path, workers=cfg.get('mc_workers', 1),
+        tag='c09mc' + name,
         heap='3g', env={'JAVA_TOOL_OPTIONS': '-XX:ParallelGCThreads=2'})))
   return futs
 
@@ -297,6 +414,9 @@ class Outcomes:
     self.problems = []        # [(signature, {'item', 'pred', 'outcome'})]
     self.lines = {}           # key -> (json text, n events, non-trivial)
     self.owners = collections.defaultdict(list)   # key -> [(item id, pred)]
+    self.harness_errors = []
+    self.shape_a = collections.defaultdict(set)   # engine -> {(program, pred)}
+    self.shape_b = collections.defaultdict(set)   # engine -> {kind of string}
     self.executed = set()     # keys of scripts SQLite executed
     self.executed_by = collections.Counter()   # key -> executed scripts
     self.n_executed = 0
@@ -333,8 +453,16 @@ class Outcomes:
                'outcome': {k: rec[k] for k in ('cls', 'msg', 'tb')}}))
         elif rec['status'] == 'diag':
           self.per[e]['diag:' + rec['cls']] += 1
+        elif rec['status'] == 'harness':
+          self.harness_errors.append('%s %s: %s' % (res['id'], p, rec['msg']))
         else:
           key = rec['key']
+          if rec['shared_with'] and rec['creates']:
+            self.shape_a[e].add((it['meta'].get('name', res['id']), p))
+          for w in (it.get('want') or {}).get(p, ()):
+            for kind, text in SHAPE_B_STRINGS.items():
+              if text == w:
+                self.shape_b[e].add(kind)
           self.per[e]['statements'] += rec['kinds'].get('end', 0)
           if key not in self.lines:
             nev = sum(rec['kinds'].values())
@@ -376,6 +504,9 @@ class Outcomes:
                                       execute=False))
       sig = {'kind': 'sql', 'engine': it['engine'], 'clause': v['clause'],
              'detail': v['detail']}
+      if v['clause'] == 'string-content':
+        sig['detail'] = 'no literal decodes to %r' % (
+            (it.get('want') or {}).get(p, [])[v['at'] - 1:v['at']],)
       payload = {'item': it, 'pred': p, 'verdict': v,
                  'texts': again['preds'].get(p, {}).get('texts'),
                  'trace': json.loads(self.lines[key][0]),
@@ -404,6 +535,10 @@ class Outcomes:
         'selftest_cases': len(SELFTEST),
         'selftest_failures': selftest_bad,
         'event_kinds': dict(self.kinds),
+        'shape_a': {e: sorted('%s/%s' % x for x in self.shape_a[e])
+                    for e in ENGINES},
+        'shape_b': {e: sorted(self.shape_b[e]) for e in ENGINES},
+        'harness_errors': self.harness_errors,
     }
     return stats, problems, calib_bad, errors
 
@@ -504,6 +639,19 @@ def Run(tier):
                'with', 'withrec', 'use', 'create', 'str', 'end'):
     if not stats['event_kinds'].get(kind):
       machinery.append('event kind %s never produced by the lexer' % kind)
+  machinery += ['harness wrote a program wrongly: ' + m
+                for m in stats['harness_errors']]
+  need_a = {'%s/%s' % (f[0], p) for f in ShapeA() for p in ('Mab', 'Mba')}
+  for e in ENGINES:
+    lack = sorted(need_a - set(stats['shape_a'][e]))
+    if lack:
+      machinery.append(
+          'shape A (shared multi-level WITH table under two parents, both '
+          'orders) not produced for %s: %s' % (e, lack))
+    lack = sorted(set(SHAPE_B_STRINGS) - set(stats['shape_b'][e]))
+    if lack:
+      machinery.append('shape B (string constants %s) not compiled to SQL '
+                       'for %s' % (lack, e))
   if stats['calibration_executed'] < max(cfg['programs'], 1):
     machinery.append('calibration vacuous: SQLite executed only %d scripts' %
                      stats['calibration_executed'])
@@ -546,7 +694,9 @@ def Run(tier):
       'builtins': bstats,
       'generator_features': dict(feats),
       'programs': cfg['programs'],
-      'fixed_programs': [f[0] for f in FIXED],
+      'fixed_programs': [f[0] for f in FIXED + ShapeA() + ShapeB()],
+      'required_shape_A_scripts': stats['shape_a'],
+      'required_shape_B_string_kinds': stats['shape_b'],
       'model_check_SqlScope': mc_stats,
       'trace_tlc': stats['tlc'],
       'defect_catalogue': '%d of %d hand-made scripts judged as expected' % (
